@@ -62,3 +62,108 @@ def make_reverse_plugin(table: List[Any], log: Optional[List[Any]] = None,
     return type(name, (ReverseProxyBasePlugin,), {
         'routes': routes, 'handle_route': handle_route, '__qualname__': name, '__module__': __name__,
     })
+
+
+PROXY_HOOKS = ('resolve_dns', 'before_upstream_connection', 'handle_client_request', 'handle_client_data',
+               'handle_upstream_chunk', 'on_upstream_connection_close', 'on_access_log', 'do_intercept')
+REQUEST_HOOKS = ('resolve_dns', 'before_upstream_connection', 'handle_client_request', 'handle_client_data',
+                 'handle_upstream_chunk', 'do_intercept')
+
+
+def _markers(request: Any) -> Tuple[bytes, ...]:
+    hs = request.headers or {}
+    return tuple(sorted(k for k in hs if k.startswith(b'x-mark-')))
+
+
+def make_proxy_plugin(idx: int, table: Dict[str, Any], log: List[Any]) -> type:
+    """An HttpProxyBasePlugin whose hooks act according to `table`
+    (hook -> action) and append (idx, hook, detail) to `log`.
+
+    Actions for before_upstream_connection / handle_client_request:
+      'pass' | 'modify' (adds header X-Mark-<idx><b|h>) | 'drop' (return None) |
+      ('reject', status, reason, headers, body) | 'raise' (HttpProtocolException).
+      A ('nth', n, action) wrapper applies `action` only to the n-th call (1-based) of that hook
+      on the connection, 'pass' otherwise.
+    handle_upstream_chunk: 'pass' | 'drop' | 'mark' (records only).
+    on_access_log: 'pass' | 'modify' | 'none'.
+    resolve_dns: 'pass' | ('ip', '10.0.0.9').
+    """
+    from proxy.http.exception import HttpProtocolException, HttpRequestRejected
+    from proxy.http.proxy import HttpProxyBasePlugin
+
+    def act_of(self: Any, hook: str) -> Any:
+        a = table.get(hook, 'pass')
+        n = self._calls.get(hook, 0) + 1
+        self._calls[hook] = n
+        if isinstance(a, tuple) and a and a[0] == 'nth':
+            return a[2] if n == a[1] else 'pass'
+        return a
+
+    def _req_hook(hook: str, suffix: bytes) -> Any:
+        def fn(self: Any, request: Any) -> Any:
+            a = act_of(self, hook)
+            log.append((idx, hook, self.uid, _markers(request), request.method, a if isinstance(a, str) else a[0]))
+            if a == 'pass':
+                return request
+            if a == 'modify':
+                request.add_header(b'X-Mark-%d%s' % (idx, suffix), b'1')
+                return request
+            if a == 'drop':
+                return None
+            if a == 'raise':
+                raise HttpProtocolException('generated plugin %d raises in %s' % (idx, hook))
+            if isinstance(a, tuple) and a[0] == 'reject':
+                raise HttpRequestRejected(status_code=a[1], reason=a[2], headers=a[3], body=a[4])
+            raise AssertionError(a)
+        return fn
+
+    def __init__(self: Any, *a: Any, **k: Any) -> None:
+        HttpProxyBasePlugin.__init__(self, *a, **k)
+        self._calls = {}
+        log.append((idx, '__init__', self.uid))
+
+    def resolve_dns(self: Any, host: str, port: int) -> Any:
+        a = act_of(self, 'resolve_dns')
+        log.append((idx, 'resolve_dns', self.uid, host, port))
+        if isinstance(a, tuple) and a[0] == 'ip':
+            return a[1], None
+        return None, None
+
+    def handle_client_data(self: Any, raw: Any) -> Any:
+        a = act_of(self, 'handle_client_data')
+        log.append((idx, 'handle_client_data', self.uid, len(raw)))
+        return None if a == 'drop' else raw
+
+    def handle_upstream_chunk(self: Any, chunk: Any) -> Any:
+        a = act_of(self, 'handle_upstream_chunk')
+        log.append((idx, 'handle_upstream_chunk', self.uid, len(chunk)))
+        return None if a == 'drop' else chunk
+
+    def on_upstream_connection_close(self: Any) -> None:
+        log.append((idx, 'on_upstream_connection_close', self.uid))
+
+    def on_access_log(self: Any, context: Dict[str, Any]) -> Any:
+        a = act_of(self, 'on_access_log')
+        log.append((idx, 'on_access_log', self.uid, tuple(sorted(k for k in context if k.startswith('mark')))))
+        if a == 'none':
+            return None
+        if a == 'modify':
+            context['mark%d' % idx] = 1
+        return context
+
+    def do_intercept(self: Any, request: Any) -> bool:
+        log.append((idx, 'do_intercept', self.uid))
+        a = table.get('do_intercept', 'pass')
+        if a == 'no':
+            return False
+        return HttpProxyBasePlugin.do_intercept(self, request)
+
+    name = _uniq('GenProxy%d' % idx)
+    return type(name, (HttpProxyBasePlugin,), {
+        '__init__': __init__, 'resolve_dns': resolve_dns,
+        'before_upstream_connection': _req_hook('before_upstream_connection', b'b'),
+        'handle_client_request': _req_hook('handle_client_request', b'h'),
+        'handle_client_data': handle_client_data, 'handle_upstream_chunk': handle_upstream_chunk,
+        'on_upstream_connection_close': on_upstream_connection_close, 'on_access_log': on_access_log,
+        'do_intercept': do_intercept, '__qualname__': name, '__module__': __name__,
+    })
